@@ -139,10 +139,11 @@ pub fn generate(tier: &str, rng: &mut Rng) -> Vec<Case> {
     }
     // 3. boundary cluster sizes
     let big_ns: &[u32] = &[9, 12, 13, 14, 16, 17, 64, 100, 254, 255, 256, 257, 258, 300, 320, 321, 511, 512, 513, 1000, 4096, 65535];
+    let big_ns: &[u32] = if thorough { big_ns } else { &big_ns[..big_ns.len() - 2] };
     let per_n = if thorough { 260 } else { 36 };
     for &n in big_ns {
         // cost of a case is about P (the real recalculation walks every partition): bounded per cluster size
-        let mut budget: i64 = if thorough { 500_000 } else { 40_000 };
+        let mut budget: i64 = if thorough { 400_000 } else { 12_000 };
         for _ in 0..per_n {
             let r0 = rng.below(n as u64) as u32;
             let idx = *rng.pick(&[0, 1, n / 2, n - 2, n - 1, r0]);
@@ -156,13 +157,17 @@ pub fn generate(tier: &str, rng: &mut Rng) -> Vec<Case> {
             let mut p = *rng.pick(&[lo, lo + 1, 2 * lo + 3, 65535, lo + r3]);
             if rng.chance(1, 25) { p = lo.saturating_sub(1 + rng.below(3)); }
             let p = p.min(65535);
-            if p > 2000 && rf <= 12 { if budget <= 0 { continue; } budget -= p as i64; }
+            if p > 2000 && rf <= 12 { if (p as i64) > budget { continue; } budget -= p as i64; }
             push(&mut cs, &mut seen, (n, idx, b, p as u16, rf));
         }
     }
+    // the largest counts, once each
+    for c in [(256u32, 3u32, 65535u16, 65535u16, 3u8), (300, 299, 4, 65535, 12), (65535, 65534, 65535, 65535, 2), (4096, 17, 4097, 8200, 5)] {
+        if thorough || c.0 <= 300 { push(&mut cs, &mut seen, c); }
+    }
     // 4. random configurations
     let nrand = if thorough { 4000 } else { 500 };
-    let mut budget: i64 = if thorough { 4_000_000 } else { 300_000 };
+    let mut budget: i64 = if thorough { 3_000_000 } else { 80_000 };
     for _ in 0..nrand {
         let n = if rng.chance(1, 12) { log_uniform(rng, 65535) } else { log_uniform(rng, 300) } as u32;
         let idx = if rng.chance(1, 30) { n } else { rng.below(n as u64) as u32 };
@@ -173,7 +178,7 @@ pub fn generate(tier: &str, rng: &mut Rng) -> Vec<Case> {
         if rng.chance(1, 20) { p = lo.saturating_sub(1 + rng.below(4)); }
         let rf = if rng.chance(1, 10) { rng.below(256) as u8 } else { rng.range(1, (n as u64).min(12)) as u8 };
         let p = p.min(65535);
-        if p > 2000 && rf <= 12 { if budget <= 0 { continue; } budget -= p as i64; }
+        if p > 2000 && rf <= 12 { if (p as i64) > budget { continue; } budget -= p as i64; }
         push(&mut cs, &mut seen, (n, idx, b as u16, p as u16, rf));
     }
     cs
